@@ -18,6 +18,8 @@ def run(ctx):
     gm.rule_rect_contains(ctx, "R07.5")
     gm.rule_bbox_contains(ctx, "R07.5b")
     gm.rule_boundary_as_rect(ctx, "R07.6", ctx.tier)
+    from rules import boolxfer as bx
+    bx.run_table(ctx, "R07.7", bx.GDS_EXPORT + bx.GDS_IMPORT)
     # ---- R07.4 polygon label lies inside: every Ok return of Polygon::label_location is guarded by contains()
     ctx.rule("R07.4", "a polygon's label point is only returned after the polygon's own containment test accepted that point")
     fs = [f for f in F.fns.values() if f.id.startswith(rg.PFX) and f.trait and "PlaceLabels" in f.trait and (f.self_ty or {}).get("s", "").endswith("geom::Polygon")]
